@@ -31,6 +31,8 @@ def gen(rng, tier):
         elif g["valmode"] == "str" and not g.get("alias") and rng.chance(0.2):
             # variables that print alike (1 / "1"), or that are spelled like the stack symbols to_pda() invents
             g["valmode"] = rng.pick(["pvar", "termname", "tup", "binint"])
+        if rng.chance(0.03):
+            g["no_start"] = True          # CFG(): no start symbol, the empty language
         return {"kind": "cfg", "g": g}
     return {"kind": "pda", "p": GP.gen_pda(rng, int_inputs=True)}
 
